@@ -111,16 +111,22 @@ def run(ctx):
     # 1. the design satisfies the property on every scenario and interleaving; terminal states = expected streams
     sink = os.path.join(ctx.tmp, "c09.gen")
     mc = ctx.tlc("Tunnel_MC", cfg_text=cfg(maxc=maxc, maxu=maxu, gen=True), workers=8, json_sink=sink,
-                 timeout=ctx.pick(240, 1500), coverage=ctx.thorough, heap=ctx.pick(None, "6g"))
+                 timeout=ctx.pick(240, 1500), heap=ctx.pick(None, "6g"))
     ctx.log("Tunnel property configuration: %d generated, %d distinct, depth %d, %.0fs" % (mc.generated, mc.distinct, mc.depth, mc.wall))
     if not ctx.need_tlc_ok(mc, "Tunnel (property configuration)"):
         return
     ctx.cover("mc", states=mc.distinct, transitions=mc.generated, exhaustive=True)
     if ctx.thorough:
-        never = [a for a in mc.coverage0 if a in ACTIONS]
+        # vacuity: every action of the specification is taken (measured on the quick universe, where -coverage is cheap)
+        cv = ctx.tlc("Tunnel_MC", cfg_text=cfg(maxc=2, maxu=2), workers=8, timeout=600, coverage=True)
+        if not ctx.need_tlc_ok(cv, "Tunnel (coverage run)"):
+            return
+        seen = set(__import__("re").findall(r"<(\w+) line[^>]*>: \d+:\d+", cv.out))
+        never = [a for a in ACTIONS if a in cv.coverage0 or a not in seen]
         if never:
             ctx.inconclusive("Tunnel: action(s) never taken in the property configuration: %s" % ", ".join(never))
             return
+        ctx.log("coverage: all %d actions taken" % len(ACTIONS))
     # 2. each named deviation of the pinned code, alone, is caught by TLC
     anyprop = tuple(PROPS.split())
     for name, kw, expect in (("CopyFromRawConn", dict(raw=True, kinds='{"sni"}', deadlock=False), anyprop),
